@@ -12,11 +12,7 @@ open Compare Data
 /-! ## rows as dicts -/
 
 theorem rowHas_iff (k : String) (r : Row) : rowHas k r = true ↔ k ∈ r.map (·.1) := by
-  induction r with
-  | nil => simp [rowHas]
-  | cons p r ih =>
-    simp only [rowHas, List.any_cons, Bool.or_eq_true, beq_iff_eq, List.map_cons, List.mem_cons] at ih ⊢
-    rw [ih]; constructor <;> (rintro (h | h) <;> [exact .inl h.symm; exact .inr h])
+  simp only [rowHas, List.any_eq_true, beq_iff_eq, List.mem_map]
 
 theorem rowHas_false_iff (k : String) (r : Row) : rowHas k r = false ↔ k ∉ r.map (·.1) := by
   rw [← rowHas_iff]; simp
@@ -37,7 +33,9 @@ theorem rowGet_rowSet_other (k k' : String) (v : PValue) (r : Row) (h : k' ≠ k
     obtain ⟨k₁, v₁⟩ := p
     by_cases h1 : k₁ = k
     · subst h1; simp [rowSet, rowGet, h.symm]
-    · by_cases h2 : k₁ = k' <;> simp [rowSet, rowGet, h1, h2, ih]
+    · by_cases h2 : k₁ = k'
+      · subst h2; simp [rowSet, rowGet, h1]
+      · simp [rowSet, rowGet, h1, h2, ih]
 
 /-- the key list after `row[k] = v`: unchanged if `k` was a key, else `k` is appended -/
 theorem rowSet_keys (k : String) (v : PValue) (r : Row) :
@@ -50,7 +48,7 @@ theorem rowSet_keys (k : String) (v : PValue) (r : Row) :
     · subst h; simp [rowSet, rowHas]
     · have hb : (k' == k) = false := by simpa using h
       simp only [rowSet, h, if_false, List.map_cons, ih, rowHas, List.any_cons, hb, Bool.false_or]
-      split <;> simp
+      split <;> simp [*]
 
 theorem rowSet_nodup (k : String) (v : PValue) (r : Row) (h : (r.map (·.1)).Nodup) : ((rowSet k v r).map (·.1)).Nodup := by
   rw [rowSet_keys]
@@ -101,9 +99,10 @@ theorem rowGet_append_left (k : String) (pre post : Row) (h : k ∈ pre.map (·.
     by_cases h1 : k' = k
     · simp [rowGet, h1]
     · have : k ∈ pre.map (·.1) := by
-        rcases List.mem_cons.mp (by simpa using h) with e | e
+        rw [List.map_cons, List.mem_cons] at h
+        rcases h with e | e
         · exact absurd e.symm h1
-        · simpa using e
+        · exact e
       simp [rowGet, h1, ih this]
 
 theorem rowHas_append (k : String) (pre post : Row) : rowHas k (pre ++ post) = (rowHas k pre || rowHas k post) := by
@@ -251,20 +250,22 @@ theorem bucketRows_groupSpec (keyOf : α → κ) (rows : List α) : bucketRows k
 theorem groupSpec_keys (keyOf : α → κ) (rows : List α) : (groupSpec keyOf rows).map (·.1) = dedup (rows.map keyOf) := by
   simp [groupSpec, Function.comp_def]
 
+theorem bucketLookup_map {β : Type} (k : κ) (f : κ → β) : ∀ l : List κ,
+    bucketLookup k (l.map (fun k' => (k', f k'))) = if k ∈ l then some (f k) else none
+  | [] => by simp [bucketLookup]
+  | a :: l => by
+    by_cases h : a = k
+    · subst h; simp [bucketLookup]
+    · have h' : ¬ k = a := fun e => h e.symm
+      simp [bucketLookup, h, h', bucketLookup_map k f l]
+
 /-- `d.get(k)` on the buckets: the rows of key `k` if there are any -/
 theorem bucketLookup_groupSpec (keyOf : α → κ) (rows : List α) (k : κ) :
     bucketLookup k (groupSpec keyOf rows) =
       if k ∈ rows.map keyOf then some (rows.filter (fun r => keyOf r = k)) else none := by
   unfold groupSpec
-  rw [← mem_dedup k (rows.map keyOf)]
-  generalize dedup (rows.map keyOf) = l
-  induction l with
-  | nil => simp [bucketLookup]
-  | cons a l ih =>
-    by_cases h : a = k
-    · subst h; simp [bucketLookup]
-    · have h' : ¬ k = a := fun e => h e.symm
-      simp [bucketLookup, h, h', ih]
+  rw [bucketLookup_map k (fun k => rows.filter (fun r => keyOf r = k))]
+  simp only [mem_dedup]
 
 /-- only the group of `k` survives a filter on "key = k" -/
 theorem flatMap_single (l : List κ) (hnd : l.Nodup) (k : κ) (g : κ → List α) :
@@ -347,11 +348,12 @@ theorem faithful_items : ∀ xs : List (String × PValue), (∀ p ∈ xs, Faithf
       have ih := faithful_items xs (fun z hz => h z (by simp [hz])) ys hy.2
       have hk := C11.str_cmp_zero_iff k k'
       simp only [bucketItems, List.cons.injEq, Prod.mk.injEq, hx, ih, cmpItems, bne_iff_ne, ne_eq]
-      by_cases hc : strCompare k k' = 0
-      · have := hk.mp hc
-        by_cases hv : valueCompare x y = 0 <;> simp [hc, this, hv]
-      · have : ¬ k = k' := fun e => hc (hk.mpr e)
-        simp [hc, this]
+      by_cases hkk : k = k'
+      · subst hkk
+        have hc : strCompare k k = 0 := hk.mpr rfl
+        by_cases hv : valueCompare x y = 0 <;> simp [hc, hv]
+      · have hc : ¬ strCompare k k' = 0 := fun e => hkk (hk.mp e)
+        simp [hc, hkk]
 
 theorem noOpaqueItems_mem : ∀ (kvs : List (String × PValue)), IsData.noOpaqueItems kvs = true → ∀ p ∈ kvs, IsData.noOpaque p.2 = true
   | [], _, _, hp => by simp at hp
@@ -382,19 +384,22 @@ theorem typeName_cmp_ne (a b : PValue) (h : typeName a ≠ typeName b) : strComp
 theorem faithful : ∀ a : PValue, IsData.noOpaque a = true → Faithful a
   | .null, _ => by intro b _; cases b <;> simp [bucketKey, valueCompare]
   | .bool x, _ => by
-    intro b _
+    intro b hb
     cases b <;> simp [bucketKey, valueCompare, typeName] <;> try decide
     rename_i y; cases x <;> cases y <;> simp [tri]
   | .num x, _ => by
-    intro b _
+    intro b hb
     cases b <;> simp [bucketKey, valueCompare, typeName] <;> try decide
-    rename_i y; exact ((C11.num_cmp x y).2.1).symm
+    rename_i y
+    have := (C11.num_cmp x y).2.1
+    simp only [valueCompare] at this
+    exact this.symm
   | .str x, _ => by
-    intro b _
+    intro b hb
     cases b <;> simp [bucketKey, valueCompare, typeName] <;> try decide
     rename_i y; exact (C11.str_cmp_zero_iff x y).symm
   | .dt x, _ => by
-    intro b _
+    intro b hb
     cases b <;> simp [bucketKey, valueCompare, typeName] <;> try decide
     rename_i y
     simp only [tri]
@@ -403,7 +408,7 @@ theorem faithful : ∀ a : PValue, IsData.noOpaque a = true → Faithful a
     · intro h; split at h
       · omega
       · split at h
-        · assumption
+        · simpa using ‹decide (x = y) = true›
         · omega
   | .fn _, h => by simp [IsData.noOpaque] at h
   | .regex _, h => by simp [IsData.noOpaque] at h
